@@ -1,6 +1,12 @@
 From Coq Require Extraction ExtrOcamlBasic.
-From Coq Require Import ZArith.
-From GV Require Import Lib.StdModel.
+From Coq Require Import ZArith NArith.
+From GV Require Import Lib.StdModel Lib.Derive Lib.Strings Lib.Json.
 Extraction Language OCaml.
-Extraction "model.ml" zmap_run zsort zfilter_gt zfilter_even zlist_foldl zlist_foldr zlist_append
-  Z.add Z.mul Z.opp Z.quotrem Z.ltb Z.eqb Z.of_nat Z.to_nat N.of_nat N.to_nat.
+Extraction "model.ml"
+  zmap_run zsort zfilter_gt zfilter_even zlist_foldl zlist_foldr zlist_append
+  Z.add Z.mul Z.opp Z.quotrem Z.ltb Z.eqb Z.of_nat Z.to_nat N.of_nat N.to_nat
+  wt env_ok deq dshow show_int
+  bytes slen split_at is_char_boundary slice char_at sfind srfind contains starts_with ends_with
+  trim trim_start trim_end trim_start_matches trim_end_matches str_compare str_eqb str_show
+  ser de
+  arr_slice arr_foldl arr_foldr arr_map arr_compare arr_eqb arr_show.
